@@ -21,7 +21,11 @@ type atnState struct {
 }
 
 type ATN struct {
-	MaxTokenType int
+	GrammarType   int      // 0 lexer, 1 parser
+	RuleTokenType []int    // lexer: token type of each rule (0 for fragments)
+	ModeStart     []int    // lexer: tokens-start state of each mode
+	Actions       [][3]int // lexer: (action type, data1, data2)
+	MaxTokenType  int
 	states       []atnState
 	ruleStart    []int
 	ruleStop     []int
@@ -41,7 +45,7 @@ func ParseATN(data []int) (a *ATN, err error) {
 		return nil, fmt.Errorf("atn: serialization version %d (want 4)", v)
 	}
 	grammarType := next()
-	a = &ATN{MaxTokenType: next()}
+	a = &ATN{MaxTokenType: next(), GrammarType: grammarType}
 	n := next()
 	for i := 0; i < n; i++ {
 		st := atnState{kind: next()}
@@ -70,7 +74,7 @@ func ParseATN(data []int) (a *ATN, err error) {
 	for i := 0; i < nr; i++ {
 		a.ruleStart[i] = next()
 		if grammarType == 0 { // lexer: token type
-			next()
+			a.RuleTokenType = append(a.RuleTokenType, next())
 		}
 	}
 	for i, st := range a.states {
@@ -79,7 +83,7 @@ func ParseATN(data []int) (a *ATN, err error) {
 		}
 	}
 	for i, k := 0, next(); i < k; i++ { // modes
-		next()
+		a.ModeStart = append(a.ModeStart, next())
 	}
 	ns := next()
 	for i := 0; i < ns; i++ {
@@ -100,8 +104,145 @@ func ParseATN(data []int) (a *ATN, err error) {
 		src, trg, kind, a1, a2, a3 := next(), next(), next(), next(), next(), next()
 		a.states[src].edges = append(a.states[src].edges, atnEdge{kind: kind, target: trg, a1: a1, a2: a2, a3: a3})
 	}
+	for i, k := 0, next(); i < k; i++ { // decisions
+		next()
+	}
+	if grammarType == 0 {
+		for i, k := 0, next(); i < k; i++ {
+			a.Actions = append(a.Actions, [3]int{next(), next(), next()})
+		}
+	}
 	a.computeMin()
 	return a, nil
+}
+
+// NumRules is the number of rules of the automaton.
+func (a *ATN) NumRules() int { return len(a.ruleStart) }
+
+// RuleActions lists the lexer actions (type, data1, data2) executed by rule r, in automaton order.
+func (a *ATN) RuleActions(r int) [][3]int {
+	var out [][3]int
+	for _, st := range a.states {
+		if st.rule != r {
+			continue
+		}
+		for _, e := range st.edges {
+			if e.kind == 6 && e.a2 >= 0 && e.a2 < len(a.Actions) {
+				out = append(out, a.Actions[e.a2])
+			}
+		}
+	}
+	return out
+}
+
+// ModeRules lists the rule indexes a mode's start state branches to, in order.
+func (a *ATN) ModeRules(mode int) []int {
+	var out []int
+	for _, e := range a.states[a.ModeStart[mode]].edges {
+		if e.kind == 1 {
+			out = append(out, a.states[e.target].rule)
+		}
+	}
+	return out
+}
+
+// MatchRule reports whether the characters s drive rule r of a LEXER automaton from its start state to its stop
+// state (whole-string match; fragments are entered through rule transitions).
+func (a *ATN) MatchRule(r int, s []rune) bool {
+	type cfg struct {
+		state, pos int
+		stack      string
+	}
+	seen := map[cfg]bool{}
+	var run func(state, pos int, stack []int) bool
+	run = func(state, pos int, stack []int) bool {
+		k := cfg{state, pos, fmt.Sprint(stack)}
+		if seen[k] {
+			return false
+		}
+		seen[k] = true
+		st := a.states[state]
+		if st.kind == 7 {
+			if len(stack) == 0 {
+				return pos == len(s)
+			}
+			return run(stack[len(stack)-1], pos, stack[:len(stack)-1])
+		}
+		for _, e := range st.edges {
+			switch e.kind {
+			case 1, 4, 6, 10:
+				if run(e.target, pos, stack) {
+					return true
+				}
+			case 3:
+				ns := append(append([]int{}, stack...), e.target)
+				if len(ns) < 200 && run(e.a1, pos, ns) {
+					return true
+				}
+			case 5:
+				if e.a3 == 0 && pos < len(s) && int(s[pos]) == e.a1 && run(e.target, pos+1, stack) {
+					return true
+				}
+			case 2:
+				if pos < len(s) && int(s[pos]) >= e.a1 && int(s[pos]) <= e.a2 && run(e.target, pos+1, stack) {
+					return true
+				}
+			case 7, 8:
+				if pos < len(s) {
+					in := false
+					for _, iv := range a.sets[e.a1] {
+						if int(s[pos]) >= iv[0] && int(s[pos]) <= iv[1] {
+							in = true
+						}
+					}
+					if in == (e.kind == 7) && run(e.target, pos+1, stack) {
+						return true
+					}
+				}
+			case 9:
+				if pos < len(s) && run(e.target, pos+1, stack) {
+					return true
+				}
+			}
+		}
+		return false
+	}
+	return run(a.ruleStart[r], 0, nil)
+}
+
+// WalkChars takes a random walk through rule r of a LEXER automaton and returns the characters read.
+func (a *ATN) WalkChars(c Chooser, r, budget int) ([]rune, bool) {
+	var out []rune
+	bad := false
+	emit := func(cp int) string {
+		if cp < 0 || cp > 0x10FFFF {
+			bad = true
+			return ""
+		}
+		out = append(out, rune(cp))
+		return ""
+	}
+	_, ok := a.walk(c, r, budget, emit, func(sets [][2]int) string {
+		var cand []rune
+		for _, p := range ProbeChars {
+			in := false
+			for _, iv := range sets {
+				if int(p) >= iv[0] && int(p) <= iv[1] {
+					in = true
+				}
+			}
+			if !in {
+				cand = append(cand, p)
+			}
+		}
+		if len(cand) == 0 {
+			bad = true
+			return ""
+		}
+		out = append(out, cand[c.Intn(len(cand), "notsetChar")])
+		return ""
+	})
+	return out, ok && !bad
 }
 
 // computeMin: minimal number of steps from each state to its rule's stop state (rule calls cost
@@ -140,10 +281,31 @@ func (a *ATN) computeMin() {
 	}
 }
 
-// Walk takes a random walk through rule ruleIndex. tokenName maps a token type to its symbolic
+// Walk takes a random walk through rule ruleIndex of a PARSER automaton. tokenName maps a token type to its symbolic
 // name. It returns the token sequence (EOF written as "EOF") and false when the walk was abandoned.
 func (a *ATN) Walk(c Chooser, ruleIndex, budget int, tokenName func(int) string, anyTok func(exclude map[string]bool) string) ([]string, bool) {
+	return a.walk(c, ruleIndex, budget, tokenName, func(sets [][2]int) string {
+		ex := map[string]bool{}
+		for _, iv := range sets {
+			for t := iv[0]; t <= iv[1]; t++ {
+				if t >= 0 {
+					ex[tokenName(t)] = true
+				}
+			}
+		}
+		return anyTok(ex)
+	})
+}
+
+// walk is the common random walk: sym is called for every symbol read on an atom / range / set transition, notIn for
+// a negated set or wildcard transition (with the excluded intervals); non-empty results are collected.
+func (a *ATN) walk(c Chooser, ruleIndex, budget int, sym func(int) string, notIn func(sets [][2]int) string) ([]string, bool) {
 	var out []string
+	add := func(s string) {
+		if s != "" {
+			out = append(out, s)
+		}
+	}
 	var stack []int
 	state := a.ruleStart[ruleIndex]
 	steps := 0
@@ -189,36 +351,28 @@ func (a *ATN) Walk(c Chooser, ruleIndex, budget int, tokenName func(int) string,
 			state = e.a1
 		case 5:
 			if e.a3 != 0 {
-				out = append(out, "EOF")
+				add("EOF")
 			} else {
-				out = append(out, tokenName(e.a1))
+				add(sym(e.a1))
 			}
 			state = e.target
 		case 2:
-			out = append(out, tokenName(e.a1+c.Intn(e.a2-e.a1+1, "range")))
+			add(sym(e.a1 + c.Intn(e.a2-e.a1+1, "range")))
 			state = e.target
 		case 7:
 			set := a.sets[e.a1]
 			iv := set[c.Intn(len(set), "interval")]
 			if iv[0] == -1 {
-				out = append(out, "EOF")
+				add("EOF")
 			} else {
-				out = append(out, tokenName(iv[0]+c.Intn(iv[1]-iv[0]+1, "inset")))
+				add(sym(iv[0] + c.Intn(iv[1]-iv[0]+1, "inset")))
 			}
 			state = e.target
 		case 8:
-			ex := map[string]bool{}
-			for _, iv := range a.sets[e.a1] {
-				for t := iv[0]; t <= iv[1]; t++ {
-					if t >= 0 {
-						ex[tokenName(t)] = true
-					}
-				}
-			}
-			out = append(out, anyTok(ex))
+			add(notIn(a.sets[e.a1]))
 			state = e.target
 		case 9:
-			out = append(out, anyTok(map[string]bool{}))
+			add(notIn(nil))
 			state = e.target
 		default:
 			return nil, false
